@@ -12,7 +12,7 @@ m = {
     "hooks": {
         "guard": "SOUNDSWALLOWER_VERIF",
         "enable": "no hooks: the analysis reads the unmodified source through the clang front end; nothing in /repo is instrumented",
-        "baseline_off_cmd": "cd /repo && cmake -G Ninja -S . -B _build -DCMAKE_BUILD_TYPE=RelWithDebInfo -DCMAKE_C_FLAGS=-Wno-error && cmake --build _build && ctest --test-dir _build -j8 --timeout 900",
+        "baseline_off_cmd": "/verif/tools/baseline.sh",
         "source_commits": [],
         "add_only": True,
     },
